@@ -80,7 +80,7 @@ func (d Dbus) sanityCheck(opt *Option) (string, error) {
 	if _, present := opt.ArgMap["bus"]; !present {
 		return "", fmt.Errorf("missing bus for '%s' in %s", opt.ArgMap["name"], opt.File)
 	}
-	if _, present := opt.ArgMap["label"]; !present && action == "talk" {
+	if _, present := opt.ArgMap["label"]; !present && (action == "talk" || action == "common") {
 		return "", fmt.Errorf("missing label for '%s' in %s", opt.ArgMap["name"], opt.File)
 	}
 
